@@ -211,11 +211,11 @@ PROPS['C01'] = {
     'level_note': 'the composition parse o write over unbounded trees is a simultaneous induction over tree and token stream that no per-function contract expresses (DESIGN.md section 5); strconv round-trip exactness is trusted',
     'packages': ALLPK,
     'functions': [('(*io/newick.Parser).parseIter', {'match': [r'^step', r'^inv', r'^decreases']}),
-                  '(*io/newick.Scanner).Scan', '(*io/newick.Scanner).scanIdent'],
+                  '(*io/newick.Scanner).Scan', '(*io/newick.Scanner).scanIdent', '(*tree.Node).Newick'],
     'trusted_base': TB_COMMON,
     'assumptions': A_COMMON,
     'explanation': 'Deductive per-token contracts of the real parser; the round trip itself is a composition outside this technique.',
-    'not_decided': ['parse(write(t)) = t and byte-identical rewrite for unbounded trees', 'writer emission order (Node.Newick)', 'lexer classification isIdent as a full equivalence'],
+    'not_decided': ['parse(write(t)) = t and byte-identical rewrite for unbounded trees', 'writer emission order (Node.Newick): which list each comment comes from, the float format and the recursion discipline are proved, the order of the pieces is not', 'lexer classification isIdent as a full equivalence'],
 }
 
 INVNOTE = 'representation invariant INV = parallel adjacency arrays, live non-self entries, every branch joins its node and the neighbour in the same slot, simple graph, unshared backing arrays (global symmetric-adjacency quantifier I4 is proved only locally, per touched slot); acyclicity/connectivity follow from the exact adjacency change by graph lemmas L1-L9 (A-GRAPH, not machine-checked)'
